@@ -598,6 +598,7 @@ func init() {
 			"shorthand - computed longhands of 'short: V' (optionally after an earlier longhand it must reset) equal those of the explicit longhands given by a reference expansion (box model 1-4 values, border/border-side/outline/column-rule in any order with omitted parts initial, flex-flow, gap); " +
 			"var - '--x:V; p:var(--x)', a two-step chain, 'var(--undef, V)' and a variable holding only the last component all compute like 'p:V'; undefined, ill-typed and cyclic references compute like no declaration (inherited / initial); " +
 			"interleave - a block of 1-5 valid declarations with 1-3 invalid ones (unknown property, vendor prefix, invalid value, missing value, {} block, at-rule...) inserted at drawn positions gives the same PreprocessDeclarations output as the block without them. " +
+			"The invalid neighbours include shorthands whose first components are valid and a later one is not. " +
 			"Non-trivial: the variant differs from the canonical text; shorthand with an omitted part or a reset; any var case; interleave with >= 1 surviving declaration.",
 		ImportantLabels: []string{"kind:variant", "kind:shorthand", "kind:var", "kind:interleave", "omitted-part", "resets-earlier-longhand", "var:cycle", "var:illtyped", "var:fallback"},
 		Assumptions:     []string{"positions the grammar marks as strings, custom identifiers, counter or family names are never case-flipped"},
